@@ -191,10 +191,23 @@ func VerifGrokRun() {
 func VerifGrokHistory() {
 	digits := "add_pattern(\"_v\", \"[0-9]+\")\ngrok(_, \"%{_v:val}-\")\n"
 	letters := "add_pattern(\"_v\", \"[a-z]+\")\ngrok(_, \"%{_v:val}-\")\n"
-	if verifnd.Bool() {
+	var wantD, wantL any = "123", "abc"
+	switch verifnd.Choice(4) {
+	case 1:
 		// the grok call sits in a nested block, the alias is declared outside it
 		digits = "add_pattern(\"_v\", \"[0-9]+\")\nif true {\n for x in [1] {\n  grok(_, \"%{_v:val}-\")\n }\n}\n"
 		letters = "add_pattern(\"_v\", \"[a-z]+\")\nif true {\n for x in [1] {\n  grok(_, \"%{_v:val}-\")\n }\n}\n"
+	case 2:
+		// the alias the call names has the same text in both scripts, the alias IT refers to differs
+		verifnd.Reach("nested-alias")
+		digits = "add_pattern(\"_d\", \"[0-9]+\")\nadd_pattern(\"_v\", \"%{_d}\")\ngrok(_, \"%{_v:val}-\")\n"
+		letters = "add_pattern(\"_d\", \"[a-z]+\")\nadd_pattern(\"_v\", \"%{_d}\")\nif true {\n grok(_, \"%{_v:val}-\")\n}\n"
+	case 3:
+		// the same expression once with a typed and once with an untyped capture
+		verifnd.Reach("typed-and-untyped")
+		digits = "add_pattern(\"_v\", \"[0-9]+\")\ngrok(_, \"%{_v:val:int}-\")\n"
+		letters = "add_pattern(\"_v\", \"[0-9]+\")\ngrok(_, \"%{_v:val}-\")\n"
+		wantD, wantL = int64(123), "123"
 	}
 	first := verifnd.Int(0, 1) // which of the two is loaded (and run) first
 	run := func(src, msg string) any {
@@ -218,6 +231,11 @@ func VerifGrokHistory() {
 		d = run(digits, msg)
 	}
 	verifnd.Reach("both-ran")
-	verifnd.Assert(d == any("123"), "digits-alias-extracts-digits")
-	verifnd.Assert(l == any("abc"), "letters-alias-extracts-letters")
+	verifnd.Assert(d == wantD, "digits-alias-extracts-digits")
+	verifnd.Assert(l == wantL, "letters-alias-extracts-letters")
+	// a script with the same expression text and no alias of its own is still rejected at load time
+	for _, src := range []string{"grok(_, \"%{_v:val}-\")\n", "if true {\n for x in [1] {\n  grok(_, \"%{_v:val}-\")\n }\n}\n", "grok(_, \"%{_v:val:int}-\")\n"} {
+		_, errs := engine.ParseScript(map[string]string{"u.p": src}, funcs.FuncsMap, funcs.FuncsCheckMap)
+		verifnd.Assert(errs["u.p"] != nil, "unknown-pattern-rejected-after-history")
+	}
 }
